@@ -7,28 +7,76 @@ TRUSTED = ("Trusted: numpy float64 oracles, Hypothesis generation/shrinking, the
            "h5x/libhdf5 for reading result files; bounds (grid sizes, case counts) as stated in DESIGN.md.")
 
 CHECKS = {
-    "C02": dict(text="Generated-input search: every weight set against the float64 Lagrange basis (quick: 2^22 sampled bit patterns "
-                     "incl. denormals and boundaries; thorough: all 2^30 patterns x orders 2,3,4 enumerated), bitwise whole-cell-shift "
-                     "oracle on arbitrary finite binary32 data, polynomial-reproduction oracle with a negative control.",
-                technique="property-based testing (Hypothesis + ctypes shim), exhaustive enumeration of the weight domain in the thorough tier",
-                ref="DESIGN.md §3 C02"),
-    "C08": dict(text="Differential testing of the multi-bunch code path against the single-bunch code path, bit for bit, for every map "
-                     "kind and for chains of full steps with a real multi-bunch wake field.",
-                technique="property-based differential testing (multi-bunch vs single-bunch), bitwise oracle",
-                ref="DESIGN.md §3 C08"),
     "C01": dict(text="Generated-input search over every map kind, interpolation order, bunch count and displacement field with data constructed "
                      "inside each row's admissible interval; two oracles: total-sum conservation and operator column sums from unit impulses; the "
                      "Fokker-Planck zero-bin defect is bounded by a factor times the damping decrement and confined to 3 rows.",
                 technique="property-based testing (Hypothesis + ctypes shim), conservation and column-sum oracles", ref="DESIGN.md §3 C01"),
+    "C02": dict(text="Generated-input search: every weight set against the float64 Lagrange basis (quick: 2^22 sampled bit patterns "
+                     "incl. denormals and boundaries; thorough: all 2^30 patterns x orders 2,3,4 enumerated), bitwise whole-cell-shift "
+                     "oracle on arbitrary finite binary32 data, polynomial-reproduction oracle with a negative control, RotationMap polynomial reproduction.",
+                technique="property-based testing (Hypothesis + ctypes shim), exhaustive enumeration of the weight domain in the thorough tier",
+                ref="DESIGN.md §3 C02"),
+    "C03": dict(text="Generated grids/shifts/steps/start distributions; centroid after every step of a full period against the exact rotation "
+                     "(fixed sense, first-order splitting bound), against the float64 kick-drift matrix model, and between differently centred grids; "
+                     "the real program started from generated off-centre distributions for both RF models and small alpha1/alpha2.",
+                technique="property-based testing with a float64 reference model (API) and whole-program runs (CLI)", ref="DESIGN.md §3 C03"),
+    "C04": dict(text="Whole-program runs without impedance over generated grids, steps, damping decrements, stencils, zooms and Fokker-Planck variants; "
+                     "oracles on the recorded bunch length / energy spread: equilibrium within a calibrated discretisation bound, relaxation rate at two "
+                     "damping times, stationarity, independence of the start, monotonicity for damping-only / diffusion-only, constancy for neither.",
+                technique="property-based testing of whole executions, invariants over recorded time series (bounded run length)", ref="DESIGN.md §3 C04"),
+    "C05": dict(text="Whole-program runs with five impedance families and the current constructed (pilot run) to hit a drawn potential-well distortion; "
+                     "Haissinski residual over the core with the stored wake and with the wake recomputed from the stored profile, stored impedance and "
+                     "machine parameters (ties sign and absolute strength of the collective force to the impedance).",
+                technique="property-based testing of whole executions, physical fixed-point (Haissinski) oracle", ref="DESIGN.md §3 C05"),
     "C06": dict(text="Reference-model testing: wakePotential() against a direct O(N^2) float64 DFT convolution recomputed from the generated inputs, "
                      "plus metamorphic relations (linearity, shift, independence of the negative-frequency half, exact padding).",
                 technique="property-based testing against an independent float64 reference model; metamorphic relations", ref="DESIGN.md §3 C06"),
     "C07": dict(text="Generated passive impedances (models and random) and profiles; Parseval relation between CSR power and profile x wake with the DC and "
                      "top-bin terms computed independently; exact non-negativity; cutoff monotonicity.",
                 technique="property-based testing, algebraic (Parseval) relation oracle", ref="DESIGN.md §3 C07"),
+    "C08": dict(text="Differential testing of the multi-bunch code path against the single-bunch code path, bit for bit, for every map "
+                     "kind and for chains of full steps with a real multi-bunch wake field.",
+                technique="property-based differential testing (multi-bunch vs single-bunch), bitwise oracle", ref="DESIGN.md §3 C08"),
     "C09": dict(text="Generated filling patterns (incl. empty buckets), extents and data; oracles: shares after normalisation, Simpson projections and moments "
                      "recomputed in float64, analytic moments of Gaussian mixtures, bitwise isolation between bunches, bitwise copy construction.",
                 technique="property-based testing, float64 reference + metamorphic isolation/copy relations", ref="DESIGN.md §3 C09"),
+    "C10": dict(text="Generated configurations of the real program; every record of the HDF5 file is checked against invariants recomputed from the file and the "
+                     "machine parameters: record counts, time axes, axes, projections (with the documented renormalisation ordering), moments, wake convolution "
+                     "with absolute scale, CSR spectrum/intensity per bunch against the radiation impedance model, unit factors.",
+                technique="property-based testing of whole executions, invariants over the result file", ref="DESIGN.md §3 C10"),
+    "C11": dict(text="Three real runs per case (uninterrupted, first leg, continued from the results file, optionally from a chosen record): bitwise load and bitwise "
+                     "equivalence without renormalisation, bounded otherwise; unusable start files (7 kinds) must be refused with a message.",
+                technique="property-based differential testing of whole executions (split run vs single run), fault injection on the start file", ref="DESIGN.md §3 C11"),
+    "C12": dict(text="Families of real runs differing only in observation (cadence, phase-space saving, tracking, verbosity, file name, exact repetition) "
+                     "compared bit for bit at every common record and at the end.",
+                technique="property-based metamorphic testing of whole executions, bitwise oracle", ref="DESIGN.md §3 C12"),
+    "C13": dict(text="Round trip parse -> save -> parse over generated assignments of all registered options from command line and/or parent config file "
+                     "(arbitrary representable floats, vectors, aliases, alpha0 vs synchrotron frequency): every getter compared bitwise.",
+                technique="property-based round-trip testing (in-process through the shim)", ref="DESIGN.md §3 C13"),
+    "C14": dict(category="fault_enumeration",
+                text="SIGINT raised by a guarded hook at generated interrupt points (statement boundaries of set-up, loop, output block, HDF5 appends, final block), "
+                     "1-3 signals; oracles against an uninterrupted run with the same cadence and an every-step reference run, all bitwise; thorough tier "
+                     "enumerates EVERY interrupt point of six fixed runs; truly asynchronous kill -INT deliveries are sampled.",
+                technique="fault injection at enumerated interrupt points (property-based schedule generation; exhaustive per run in the thorough tier), differential bitwise oracle",
+                ref="DESIGN.md §3 C14"),
+    "C15": dict(text="Blob oracle (particle vs centroid of a constructed two-row blob) for all kick maps and positions incl. edges; in-grid invariant over generated "
+                     "step sequences and all four Fokker-Planck tracking models; 5-sigma ensemble statistics of the stochastic model with a hook-seeded PRNG.",
+                technique="property-based testing: exact first-moment oracle, invariant over generated operation sequences, seeded statistical test", ref="DESIGN.md §3 C15"),
+    "C16": dict(text="Shape/passivity/zero-upper-half for every model and sample count, scaling-law ratios and phases, parameter metamorphics, parallel-plates limits, "
+                     "causality through the real wake code, factory result bitwise equal to the sum of separately built contributions.",
+                technique="property-based testing, ratio/metamorphic oracles and an impulse-response causality test", ref="DESIGN.md §3 C16"),
+    "C17": dict(text="Structured generator of configurations and input files run on the ASan+UBSan build of the real program; valgrind memcheck on a generated "
+                     "subset for uninitialised reads; libFuzzer (coverage-guided) on the three text readers and the impedance factory with shape oracles.",
+                technique="structured fuzzing of the whole program under ASan/UBSan, valgrind subset, libFuzzer target", ref="DESIGN.md §3 C17"),
+    "C18": dict(text="Generated histories of set-profile / wake / pad / csr requests on one long-lived field, each answer compared bit for bit with a freshly "
+                     "constructed field given the current profiles.",
+                technique="stateful (model-based) property testing: history vs fresh object, bitwise oracle", ref="DESIGN.md §3 C18"),
+    "C19": dict(text="Dynamic RF map with zero amplitudes vs static map (bitwise, both models); recorded (phase, amplitude) pairs vs the kick actually in force and "
+                     "the configured modulation across generated flush positions, noise seeded through the hook.",
+                technique="property-based differential testing (dynamic vs static map) and record/replay consistency", ref="DESIGN.md §3 C19"),
+    "C20": dict(text="Reference model of three-level precedence over generated presence patterns of all options, alias substitution and ignored-option metamorphics, "
+                     "documented defaults parsed from --help, fault injection (unknown/malformed/missing config) against the real binary.",
+                technique="property-based testing against a precedence reference model; fault injection on the command line", ref="DESIGN.md §3 C20"),
 }
 
 NOT_YET = "check not built yet (in progress; see DESIGN.md §7 order of work)"
@@ -43,7 +91,7 @@ def main():
     hook_commits = [c.split()[0] for c in commits if "INOVESA_VERIF" in c or c.split(" ", 1)[1].startswith("verif-hook")]
     m = dict(
         version=1,
-        setup_cmd="python3 build.py h5x shim rel san",
+        setup_cmd="python3 build.py h5x shim rel san fuzz",
         hooks=dict(guard="INOVESA_VERIF",
                    enable="build.py compiles every source of /repo's working tree with -DINOVESA_VERIF=1 (flavours rel, san, shim, fuzz)",
                    baseline_off_cmd="cmake --build /repo/_build && ctest --test-dir /repo/_build -j8 --timeout 900",
